@@ -45,6 +45,9 @@ type Scn struct {
 	// Pre: a route in front of the proxy route matches on the first byte and its non-terminal
 	// handler consumes this many bytes; the proxy then starts at the first unconsumed byte
 	Pre int `json:"pre,omitempty"`
+	// Pause: the client stays silent for this many seconds (longer than the matching timeout)
+	// before its last write, long after matching is over
+	Pause int `json:"pause,omitempty"`
 }
 
 var chunk = layer4.VerifPrefetchChunkSize()
@@ -227,6 +230,9 @@ func execute(x *explore.Exec, sc *Scn) *result {
 		}
 		for i := 0; i < w; i++ {
 			part := out[i*len(out)/w : (i+1)*len(out)/w]
+			if sc.Pause > 0 && i == w-1 {
+				vtime.Sleep(time.Duration(sc.Pause) * time.Second)
+			}
 			if len(part) > 0 {
 				cl.Write(part)
 			}
@@ -381,6 +387,17 @@ func scenarios(tier string, yield func(any) bool) {
 		for _, need := range []int{1, 3} {
 			for _, c2u := range []int{5, chunk + 1} {
 				if !yield(&Scn{C2U: c2u, U2C: 1, Peers: 1, Order: order, Half: true, Need: need, Writes: 1, Pre: 2}) {
+					return
+				}
+			}
+		}
+	}
+	// a client that pauses for longer than the matching timeout in the middle of its stream,
+	// behind one route and behind a consuming route followed by a second matching round
+	for _, order := range []string{"client-first", "upstream-first"} {
+		for _, pre := range []int{0, 2} {
+			for _, half := range []bool{true, false} {
+				if !yield(&Scn{C2U: 6, U2C: 1, Peers: 1, Order: order, Half: half, Need: 1, Writes: 3, Pre: pre, Pause: 5}) {
 					return
 				}
 			}
